@@ -58,7 +58,10 @@ namespace awkward {
     for (auto x : contents_) {
       x.get()->clear();
     }
-    length_ = -1;
+    // keep the arity: 'length_' stays a count (-1 only means "no tuple seen yet")
+    if (length_ != -1) {
+      length_ = 0;
+    }
     begun_ = false;
     nextindex_ = -1;
   }
